@@ -126,6 +126,11 @@ func budget(cost int) (n, par int) {
 	default:
 		n, par = 1<<18+1<<8, cpus
 	}
+	// the expensive operations count on sharing their calls among the CPUs: with few of them (single-P and CPU-pinned shards) the
+	// budget shrinks accordingly - a budget is never a deadline
+	if avail := min(runtime.GOMAXPROCS(0), cpus); cost >= 2 && avail < 16 {
+		n = max(min(n, 1<<14), n/16*avail)
+	}
 	if runtime.GOARCH == "386" {
 		n = n/16 + 300
 	}
